@@ -45,6 +45,11 @@ def local_dict(f, name) -> Optional[Dict[str, str]]:
             t = n.targets[0] if isinstance(n, ast.Assign) else n.target
             if path_of(t) == name:
                 return {k.value: norm(v) for k, v in zip(n.value.keys, n.value.values) if isinstance(k, ast.Constant)}
+    # whatever the local is called: the one dict literal with string keys and >= 20 entries
+    big = [n.value for n in walk_local(f.node) if isinstance(n, (ast.Assign, ast.AnnAssign)) and isinstance(n.value, ast.Dict) and len(n.value.keys) >= 20
+           and all(isinstance(k, ast.Constant) and isinstance(k.value, str) for k in n.value.keys)]
+    if len(big) == 1:
+        return {k.value: norm(v) for k, v in zip(big[0].keys, big[0].values)}
     return None
 
 
@@ -310,7 +315,14 @@ def run(prog: Program, chk: Check):
     for cls in ("MDF", "SDF"):
         fi = pm.functions.get(f"{cls}.size")
         body = [norm(n.value) for n in walk_local(fi.node) if isinstance(n, ast.Return)] if fi else []
-        S.decide(body in (["sum([f.size for f in self.fields])"], ["sum((f.size for f in self.fields))"], ["sum(f.size for f in self.fields)"]), f"{PAR}::{cls}.size", pm.rel, "size = sum of field sizes", f"{cls}.size is {body}")
+        rets = [n.value for n in walk_local(fi.node) if isinstance(n, ast.Return)] if fi else []
+        oks = False
+        if len(rets) == 1 and isinstance(rets[0], ast.Call) and isinstance(rets[0].func, ast.Name) and rets[0].func.id == "sum" and len(rets[0].args) == 1:
+            cmp_ = rets[0].args[0]
+            if isinstance(cmp_, (ast.ListComp, ast.GeneratorExp)) and len(cmp_.generators) == 1 and not cmp_.generators[0].ifs and norm(cmp_.generators[0].iter) == "self.fields" \
+                    and isinstance(cmp_.generators[0].target, ast.Name) and norm(cmp_.elt) == f"{cmp_.generators[0].target.id}.size":
+                oks = True
+        S.decide(oks, f"{PAR}::{cls}.size", pm.rel, "size = sum of field sizes (unfiltered)", f"{cls}.size is {body}")
     fi = pm.functions.get("Field.size")
     body = [norm(n.value) for n in walk_local(fi.node) if isinstance(n, ast.Return)] if fi else []
     S.decide(body == ["self.type_obj.size * (self.length or 1)"], f"{PAR}::Field.size", pm.rel, "field size = element size * (length or 1)", f"Field.size is {body}")
